@@ -203,6 +203,15 @@ class Models:
         ip = self.ip
         if isinstance(obj, I.External):
             if obj.attr is None:
+                # plain constants of standard-library modules are taken from the real module
+                if obj.mod in ('zlib', 'gzip', 'io', 'os', 'sys', 'math', 'string'):
+                    try:
+                        import importlib
+                        val = getattr(importlib.import_module(obj.mod), attr)
+                        if isinstance(val, (int, float, str, bytes)) and not isinstance(val, bool):
+                            return val
+                    except Exception:     # noqa
+                        pass
                 return I.External(obj.mod, attr)
             return I.External(obj.mod, f'{obj.attr}.{attr}')
         if isinstance(obj, SymSeq):
